@@ -142,7 +142,28 @@ def check(ctx):
     from .common_flags import flag_metadata_rule
     flag_metadata_rule(ctx, "C15.R5")
 
+    # ---------------- R6: init-only pseudo-fields are classified alike by the tracker and by the object model
+    ctx.rule("C15.R6", "with_fields_set recognises InitVar pseudo-fields by the dataclass machinery (_FIELD_INITVAR) and the object model by the resolved hint being an InitVar: resolve_type_hints keeps the InitVar wrapper of the hints it rewrites, otherwise an init variable becomes a regular field for serialization (emitted with exclude_unset=False) while the tracker still excludes it", floor=2)
+    rth = model.func("apischema.typing.resolve_type_hints")
+    unwrap = [n for n in ast.walk(rth.node) if isinstance(n, ast.Attribute) and n.attr == "type" and isinstance(n.value, ast.Name) and n.value.id in ("hint", "param")]
+    stores = [a for a in ast.walk(rth.node) if isinstance(a, ast.Assign) and isinstance(a.targets[0], ast.Subscript) and norm(a.targets[0].value) == "hints"]
+    ctx.require(len(stores) >= 3, "resolve_type_hints: stores into `hints` not found")
+    bad = None
+    if unwrap:
+        aliases = {norm(a.targets[0]) for a in ast.walk(rth.node) if isinstance(a, ast.Assign) and any(u in list(ast.walk(a.value)) for u in unwrap)}
+        for a in stores:
+            uses_alias = any(isinstance(x, ast.Name) and x.id in aliases for x in ast.walk(a.value)) or any(u in list(ast.walk(a.value)) for u in unwrap)
+            rewrapped = any(isinstance(c, ast.Call) and (dotted(c.func) or "").endswith("InitVar") for c in ast.walk(a.value))
+            if uses_alias and not rewrapped:
+                bad = a
+    ctx.check(bad is None, "C15.R6", f"{rth.qualname}:InitVar-kept", None,
+              f"`{short(bad, 70) if bad is not None else ''}` stores a hint rebuilt from the inside of an InitVar without wrapping it again: dataclass_types_and_fields then takes `x: InitVar[T]` for a regular field - serialize(..., exclude_unset=False) emits it (class default) or raises AttributeError, while fields_set never contains it",
+              rth, bad if bad is not None else rth.node, detail="hints rebuilt from `hint` itself, or re-wrapped in InitVar(...)")
+    dtf = model.func("apischema.visitor.dataclass_types_and_fields")
+    ctx.check("isinstance(field_type, InitVar)" in norm(dtf.node), "C15.R6", f"{dtf.qualname}:classifier", None, "dataclass_types_and_fields no longer classifies init variables by their resolved hint (rule to be re-derived)", dtf, dtf.node, detail="isinstance(field_type, InitVar)", nontrivial=False)
+
 def mutants(mb):
+    mb.add_text("generic-initvar-unwrapped", "apischema/typing.py", "                if isinstance(hint, TypeVar):\n                    hints[name] = substitution.get(hint, hint)\n", "                if isinstance(getattr(hint, \"type\", None), TypeVar) and type(hint).__name__ == \"InitVar\":\n                    hints[name] = substitution.get(hint.type, hint.type)\n                elif isinstance(hint, TypeVar):\n                    hints[name] = substitution.get(hint, hint)\n", "C15.R6", "InitVar-kept")
     mb.add_text("flag-placeholder-none", "apischema/metadata/implem.py", "    return MetadataImplem({key: ...})\n", "    return MetadataImplem({key: None})\n", "C15.R5", "DEFAULT_AS_SET_METADATA")
     mb.add_text("neg-flag-placeholder-true", "apischema/metadata/implem.py", "    return MetadataImplem({key: ...})\n", "    return MetadataImplem({key: True})\n", negative=True)
     mb.add_text("neg-flag-tested-by-presence", "apischema/fields.py", "            if field.metadata.get(DEFAULT_AS_SET_METADATA):\n", "            if DEFAULT_AS_SET_METADATA in field.metadata:\n", negative=True)
